@@ -263,6 +263,10 @@ class Effects:
         repo = self.repo
         f = call.func
         if isinstance(f, ast.Name):
+            # a function defined inside the calling function (closure helper)
+            for n in ast.walk(fk.fn):
+                if isinstance(n, (ast.FunctionDef, ast.AsyncFunctionDef)) and n is not fk.fn and n.name == f.id:
+                    return [FnKey(None, n, fk.mod, "func")], "exact", None
             if f.id in fk.mod.functions:
                 return [FnKey(None, fk.mod.functions[f.id], fk.mod, "func")], "exact", None
             if f.id in fk.mod.imports:
